@@ -183,7 +183,18 @@ def unary_binary(ctx):
     for name, fn in {"mul_number": lambda x: x * 2.5, "rmul_number": lambda x: 2.5 * x,
                      "add_vector": lambda x: x + tuple([1.0] * x.nvdim),
                      "rsub_number": lambda x: 3 - x,
-                     "dot_vector": lambda x: x.dot([1.0] * x.nvdim)}.items():
+                     "dot_vector": lambda x: x.dot([1.0] * x.nvdim),
+                     # neutral elements in every position (shortcuts that hand back the
+                     # operand itself would make the result's validity the operand's)
+                     "add_zero": lambda x: x + 0, "radd_zero": lambda x: 0 + x,
+                     "radd_zero_float": lambda x: 0.0 + x, "radd_zero_complex": lambda x: 0j + x,
+                     "sum_of_one": lambda x: sum([x]), "sub_zero": lambda x: x - 0,
+                     "mul_one": lambda x: x * 1, "rmul_one": lambda x: 1 * x,
+                     "rmul_one_float": lambda x: 1.0 * x, "div_one": lambda x: x / 1,
+                     "pow_one": lambda x: x ** 1,
+                     "add_zero_vector": lambda x: x + tuple([0.0] * x.nvdim),
+                     "mul_ones_array": lambda x: x * np.ones_like(x.array),
+                     "double_neg": lambda x: -(-x)}.items():
         what = {"op": name, **base}
         r = fn(f)
         check_result(ctx, r, what)
@@ -226,6 +237,11 @@ def mapped_ops(ctx, spec, boxes, f, tmp, kinds=None):
         ops[f"pad:{mode}"] = lambda q, mode=mode: q.pad(pw, mode=mode)
     n2 = tuple(int(k) for k in rng.integers(1, 7, nd))
     ops["resample"] = lambda q: q.resample(n2)
+    if any(k % 2 == 0 for k in n):
+        # coarsening by an even factor: every new cell centre lies on a face of the old
+        # lattice (a tie) - whichever neighbour the data take, the validity must take it too
+        n3 = tuple(int(k // 2) if k % 2 == 0 else int(k) for k in n)
+        ops["resample_even_coarsening"] = lambda q: q.resample(n3)
     if nd > 1:
         a, b = (int(t) for t in rng.choice(nd, 2, replace=False))
         k = int(rng.integers(-5, 6))
